@@ -212,14 +212,25 @@ def find_typedef(src: str, msk: str, kind: str, name: str):
         e += 1
     else:
         e = j + 1
-    # include preceding attribute / visibility lines
-    ls = src.rfind("\n", 0, s) + 1
-    start = ls
+    # include preceding attributes (possibly multi-line) and visibility
+    start = src.rfind("\n", 0, s) + 1
     while True:
-        pls = src.rfind("\n", 0, start - 1) + 1 if start > 0 else 0
-        line = msk[pls:start].strip()
-        if start > 0 and (line.startswith("#[") or line.startswith("#![")):
-            start = pls
-        else:
-            break
+        k = start - 1
+        while k >= 0 and msk[k].isspace():
+            k -= 1
+        if k >= 0 and msk[k] == "]":
+            depth = 0
+            j = k
+            while j >= 0:
+                if msk[j] == "]":
+                    depth += 1
+                elif msk[j] == "[":
+                    depth -= 1
+                    if depth == 0:
+                        break
+                j -= 1
+            if j > 0 and msk[j - 1] == "#":
+                start = src.rfind("\n", 0, j - 1) + 1
+                continue
+        break
     return (start, e)
